@@ -5,16 +5,6 @@ From Boltons Require Import Lib.Prelude Model.C04_Model Spec.C04_Spec Check.C04_
 Open Scope nat_scope.
 Arguments upd {A} f k v x : simpl never.
 
-(* the buffering oracle is in range at every write: vl = bytes in the kernel, bl = bytes buffered *)
-Fixpoint oracle_ok (vl bl : N) (ops : list bop) : bool :=
-  match ops with
-  | [] => true
-  | BWrite d k :: r =>
-      let all := (vl + bl + blen d)%N in
-      (vl <=? k)%N && (k <=? all)%N && oracle_ok k (all - k)%N r
-  | BFlush :: r => oracle_ok (vl + bl)%N 0%N r
-  end.
-
 Lemma blen_app a b : blen (a ++ b) = (blen a + blen b)%N.
 Proof. unfold blen. rewrite app_length. lia. Qed.
 
